@@ -1,6 +1,7 @@
 package prop
 
 import (
+	"google.golang.org/protobuf/encoding/protowire"
 	"bytes"
 	"compress/gzip"
 	"fmt"
@@ -858,6 +859,7 @@ func apiRoundTrips(run *ev.Run, c int) {
 		}
 	}
 	run.Count("message-types-round-tripped", int64(tested))
+	apiUnknownFields(run, mds)
 	if tested < 100 {
 		run.Inconc("only %d message types available in both families", tested)
 	}
@@ -961,6 +963,82 @@ func apiOneRoundTrip(run *ev.Run, name string, mode genMode, pt protoreflect.Mes
 		run.Count("roundtrips-normalised-then-stable", 1)
 	}
 	run.Sample("roundtrip:"+mode.String(), map[string]any{"message": name, "mode": mode.String(), "api_bytes": fmt.Sprintf("%x", trimBytes(b0)), "gogo_bytes": fmt.Sprintf("%x", trimBytes(b1)), "relation": rel})
+}
+
+// apiUnknownFields puts a field that no irismod message declares (number 1901, once per wire type: varint, fixed64,
+// length-delimited, fixed32) in front of and behind the bytes of a populated value of every message type: both
+// families must accept the bytes and agree with what they make of the same bytes without that field.
+func apiUnknownFields(run *ev.Run, mds []protoreflect.MessageDescriptor) {
+	rng := run.Rng
+	unknown := map[string][]byte{
+		"varint":           protowire.AppendVarint(protowire.AppendTag(nil, 1901, protowire.VarintType), 300),
+		"fixed64":          protowire.AppendFixed64(protowire.AppendTag(nil, 1901, protowire.Fixed64Type), 0x1122334455667788),
+		"length-delimited": protowire.AppendBytes(protowire.AppendTag(nil, 1901, protowire.BytesType), []byte{0xde, 0xad, 0xbe, 0xef, 0x01}),
+		"fixed32":          protowire.AppendFixed32(protowire.AppendTag(nil, 1901, protowire.Fixed32Type), 0xcafef00d),
+	}
+	kinds := []string{"fixed32", "fixed64", "length-delimited", "varint"}
+	for _, md := range mds {
+		name := string(md.FullName())
+		pt, err := protoregistry.GlobalTypes.FindMessageByName(md.FullName())
+		if newGogo(name) == nil || err != nil || md.Fields().ByNumber(1901) != nil {
+			continue
+		}
+		x0 := genMessage(rng, md, modePopulated, 2)
+		b0, err := proto.MarshalOptions{Deterministic: true}.Marshal(x0)
+		if err != nil {
+			continue
+		}
+		// what the two families make of the plain bytes
+		known := func(b []byte) (string, error) {
+			g := newGogo(name)
+			if err := g.Unmarshal(b); err != nil {
+				return "", fmt.Errorf("modules' family: %w", err)
+			}
+			bg, err := g.Marshal()
+			if err != nil {
+				return "", fmt.Errorf("modules' family re-encoding: %w", err)
+			}
+			p := pt.New().Interface()
+			if err := proto.Unmarshal(bg, p); err != nil {
+				return "", fmt.Errorf("api family on the modules' bytes: %w", err)
+			}
+			p.ProtoReflect().SetUnknown(nil)
+			q := pt.New().Interface()
+			if err := proto.Unmarshal(b, q); err != nil {
+				return "", fmt.Errorf("api family: %w", err)
+			}
+			q.ProtoReflect().SetUnknown(nil)
+			bp, _ := proto.MarshalOptions{Deterministic: true}.Marshal(p)
+			bq, _ := proto.MarshalOptions{Deterministic: true}.Marshal(q)
+			if !bytes.Equal(bp, bq) {
+				return "", fmt.Errorf("the families decode the known fields differently (%x vs %x)", trimBytes(bp), trimBytes(bq))
+			}
+			return string(bq), nil
+		}
+		want, err := known(b0)
+		if err != nil {
+			continue // judged by the plain round trips
+		}
+		for _, k := range kinds {
+			for _, where := range []string{"front", "end"} {
+				b := append(append([]byte{}, unknown[k]...), b0...)
+				if where == "end" {
+					b = append(append([]byte{}, b0...), unknown[k]...)
+				}
+				run.Eval(1)
+				run.Count("values-with-an-unknown-field", 1)
+				got, err := known(b)
+				det := map[string]any{"message": name, "unknown_field": k, "where": where, "bytes": fmt.Sprintf("%x", trimBytes(b))}
+				switch {
+				case err != nil:
+					run.Violation("C20:api:unknown-"+k+"-field-not-skipped:"+where, det, "%s with an unknown %s field at the %s: %v", name, k, where, err)
+				case got != want:
+					run.Violation("C20:api:unknown-"+k+"-field-changes-the-known-fields:"+where, det, "%s with an unknown %s field at the %s decodes to other known fields than without it", name, k, where)
+				}
+				run.Class("unknown-field", k, where)
+			}
+		}
+	}
 }
 
 func trimBytes(b []byte) []byte {
